@@ -49,7 +49,7 @@ def gen_console(rng, tier):
             # middleware's verdict is what is compared, and `served` is observable from a refused validation too
             ops.append("chttp %s %s session=%s h=%s" % (m, p, s, h))
         for sp in [p + "/", p.upper(), p.replace("/console/", "/console//", 1), p + ".js", p + "/x.css",
-                   p[:-1] + "%%%02X" % ord(p[-1])]:
+                   p[:-1] + "%%%02X" % ord(p[-1]), p + "?v=.js", p + "?pageNo=1&_=a.css"]:
             ops.append("chttp %s %s session=none" % (m, sp))
             if big:
                 ops.append("chttp %s %s session=sess-2 h=%s" % (m, sp, h))
@@ -69,8 +69,8 @@ class C17(Prop):
             "UserRole::match_url_by_roles vs the model over the generated tables")),
         ModelRun("console", gen_console, lambda c: len(c.ops) >= 2, spec_needs_impl=True, rule=(
             "every registered console route x method x session state (none, empty, garbage, one session per role, "
-            "two roles, unknown role, no role) + 6 spellings (trailing slash, upper case, double slash, .js / .css suffix, "
-            "percent-encoded last letter) through the real CheckLogin middleware around console_config in-process; "
+            "two roles, unknown role, no role) + 8 spellings (trailing slash, upper case, double slash, .js / .css suffix, "
+            "percent-encoded last letter, a query string that ends in a static-file suffix) through the real CheckLogin middleware around console_config in-process; "
             "oracle: an API route outside the login exceptions is never served (reached) without a session")),
     ]
     trusted_base = [
